@@ -1,6 +1,7 @@
 package main
 
 import (
+	"regexp"
 	"fmt"
 	"go/ast"
 	"go/parser"
@@ -567,7 +568,7 @@ func (t *tr) applyContract(con *Contract, ct *callTarget, haveRecv bool, recv Te
 		n0 := len(t.allVars)
 		for _, kind := range []string{"ensures", "always_ensures", "ghost_ensures"} {
 			for _, cl := range con.clauses(kind) {
-				if !strings.Contains(cl.Text, "at_loop(") && !strings.Contains(cl.Text, "panicked") && !strings.Contains(cl.Text, "returned") {
+				if !calleeInternal(cl.Text) {
 					sc2.where = cl.Where
 					t.spec(cl.Expr, sc2) // evaluated only to materialise the heaps it reads
 				}
@@ -583,7 +584,7 @@ func (t *tr) applyContract(con *Contract, ct *callTarget, haveRecv bool, recv Te
 	}
 	for _, kind := range []string{"ensures", "always_ensures", "ghost_ensures"} {
 		for _, cl := range con.clauses(kind) {
-			if strings.Contains(cl.Text, "at_loop(") || strings.Contains(cl.Text, "panicked") || strings.Contains(cl.Text, "returned") {
+			if calleeInternal(cl.Text) {
 				// refers to an intermediate state of the callee: proved there, not usable (and not assumed) here
 				continue
 			}
@@ -617,7 +618,7 @@ func (t *tr) calleePanics(con *Contract, sc *specCtx, pre Env, vars map[string]T
 	sc2 := &specCtx{pkg: sc.pkg, vars: vars2, cur: t.cur.Env, old: pre, where: con.File, qn: sc.qn}
 	for _, kind := range []string{"panic_ensures", "always_ensures"} {
 		for _, cl := range con.clauses(kind) {
-			if strings.Contains(cl.Text, "at_loop(") {
+			if calleeInternal(cl.Text) {
 				continue
 			}
 			sc2.where = cl.Where
@@ -686,6 +687,11 @@ func (t *tr) runLoopDefer(d *deferRec) {
 	top := t.fresh(t.allocTop)
 	t.assume(ge(top, oldTop))
 }
+
+var calleeInternalRe = regexp.MustCompile(`at_loop\(|\bpanicked\b|\breturned[0-9]`)
+
+// calleeInternal: the clause speaks about an intermediate state or the exit path of the callee itself.
+func calleeInternal(text string) bool { return calleeInternalRe.MatchString(text) }
 
 func lastName(key string) string {
 	if i := strings.LastIndexAny(key, ".:"); i >= 0 {
